@@ -9,7 +9,8 @@ Static clauses:
   S-ALL    redeemer builders do not truncate the item list (`first` / `next` / `take`) before building: one redeemer per UTxO of
            a script input, one per minted policy of a block
   SIB      mint and burn redeemers are built by the same function over their own lists
-  CHAIN    compile_redeemers collects all four redeemer lists
+  CHAIN    every function of the crate returning Vec<Redeemer> (the list builders, by role) is called where the redeemer map
+           is assembled and the result of each call flows into the chain / extend / loop that fills the map
   TAGS     each builder uses the redeemer tag of its purpose
   R-CTX    the lowering of a redeemer-carrying block hands its fields the context it was given: no block-level
            `enter_*_expr()` (a policy name in a redeemer would be read as a script address)
@@ -655,7 +656,7 @@ def run(ctx):
     res.rule("S-SORTED", "redeemer indices are positions in a sorted list")
     res.rule("S-ALL", "redeemer builders do not truncate the item list")
     res.rule("SIB", "mint and burn redeemers use the same builder")
-    res.rule("CHAIN", "all four redeemer lists reach the witness set")
+    res.rule("CHAIN", "every redeemer list builder's result reaches the witness set")
     res.rule("TAGS", "each builder uses the tag of its purpose")
     res.rule("R-INDEX", "every Redeemer's index is the place of its item in the compiled body's collection for its tag")
     keys(F, res)
